@@ -12,7 +12,8 @@
 (*                                                                         *)
 (* Atoms are literal URI text, except RAWE9 = the raw (unescaped) UTF-8    *)
 (* bytes of U+00E9, which TLA+ strings cannot hold, and RAWFF / RAWFE =    *)
-(* the single bytes 0xff / 0xfe (not UTF-8 at all).                        *)
+(* the single bytes 0xff / 0xfe (not UTF-8 at all) and RAWFFFD = U+FFFD,   *)
+(* the character a lossy decoder puts in their place.                      *)
 (***************************************************************************)
 EXTENDS Integers, Sequences, FiniteSets, TLC, Json
 
@@ -26,7 +27,7 @@ Ports   == {"", ":", ":80", ":443", ":8080"}
 Segs    == {"a", "A", "%61", "~", "%7E", "%7e", "a%2Fb", "a%2fb", "%E9", "%e9", "RAWE9", "%C3%A9", "+", "%2B", "%20", "b"}
 Paths   == {<<>>, <<"">>} \cup {<<s>> : s \in Segs} \cup {<<"a", s>> : s \in {"b", "B", ".", "..", ""}}
            \cup {<<".", "a">>, <<"..", "a">>, <<"a", ".", "b">>, <<"a", "..", "b">>, <<"a", "b", "..">>, <<"x", "..", "a">>, <<"a", "", "b">>}
-Queries == {"NONE", "q=RAWFF", "q=RAWFE", "q=%%341", "q=%4%31", "q=a", "q=A", "q=%61", "q=~", "q=%7e", "q=%7E", "q=%E9", "q=%e9", "q=RAWE9", "q=%C3%A9", "q=a%2Fb", "q=a%2fb", "q=a&r=b", "r=b&q=a", "q=+", "q=%20"}
+Queries == {"NONE", "q=RAWFF", "q=RAWFE", "q=RAWFFFD", "q=%%341", "q=%4%31", "q=a", "q=A", "q=%61", "q=~", "q=%7e", "q=%7E", "q=%E9", "q=%e9", "q=RAWE9", "q=%C3%A9", "q=a%2Fb", "q=a%2fb", "q=a&r=b", "r=b&q=a", "q=+", "q=%20"}
 Frags   == {"", "#frag"}
 Users   == {"", "user@"}
 
